@@ -109,6 +109,23 @@ def _check_case(case, stats, keep):
         if blocks is not None and (b, c) != (blocks, crc):
             fail("config_response_differs_between_nodes", f"{(b, c)} vs {(blocks, crc)}")
         blocks, crc = b, c
+    if case.get("reissue"):
+        # the update is issued again WITHOUT an image (another node joins, or the call is simply repeated in the
+        # middle of a download): the firmware stored for this type / version stays what it is
+        for _ in range(case["reissue"]):
+            step = drv.update_fw(nodes, fw[0], fw[1])
+            if step.exc is not None or step.call_exc is not None:
+                fail("update_call_raises", f"re-issued update_fw without an image raised {step.exc or step.call_exc!r}")
+        for nid in nodes:  # the new call restarts every node's session from the config step
+            replies = fetch(drv, nid, O.words_hex(9, 9, 1, 0xABCD, 0x0102), 0)
+            if len(replies) != 1:
+                fail("config_response_missing", f"after re-issuing the update without an image: {replies}")
+            try:
+                again = O.check_config(image, fw, replies[0][5])
+            except ValueError as exc:
+                fail("config_response_wrong", f"after re-issuing the update without an image: {exc}")
+            if again != (blocks, crc):
+                fail("config_response_differs_between_nodes", f"after re-issuing the update without an image: {again} vs {(blocks, crc)}")
     # which blocks to fetch
     if case["full"]:
         wanted = list(range(blocks))
@@ -253,6 +270,8 @@ def make_case(length, rnd, full=None, via_hex=False):
     }
     if rnd.random() < 0.3:
         case["second"] = rnd.choice([16, 100, 128, 300])
+    if rnd.random() < 0.3:
+        case["reissue"] = rnd.choice([1, 1, 2, 3])
     if rnd.random() < 0.3:
         case["reupload"] = rnd.choice([16, 100, 129, 400, max(1, min(length, 2000) - 17), min(length, 2000) + 40])
         case["reupload_kind"] = rnd.choice(["random", "random", "prefix", "prefix", "strip_ff", "extend", "one_byte", "same"])
